@@ -4,7 +4,7 @@
 # VERIF_REPO override, worktree removed afterwards. Expected result: exit 1 (the change is detected).
 set -u
 export GOFLAGS=-mod=mod GOPROXY=off GOSUMDB=off GOTOOLCHAIN=local
-seed="$1"; id="${2:-${seed%%-*}}"; tier="${3:-quick}"
+seed="$1"; id="${2:-}"; [ -z "$id" ] && id="${seed%%-*}"; tier="${3:-quick}"
 wt="/tmp/wt-seed-$seed"
 git -C /repo worktree remove --force "$wt" >/dev/null 2>&1
 git -C /repo worktree add -q --detach "$wt" || exit 3
